@@ -322,6 +322,14 @@ fn execute(prog: Program) -> Outcome {
         })
         .collect();
     let mut bulk_missing: Vec<String> = Vec::new();
+    let away_keys: Vec<(usize, String)> = prog
+        .away
+        .iter()
+        .filter_map(|o| match o {
+            Op::Set { db, key, .. } | Op::Remove { db, key } | Op::Inc { db, key, .. } => Some((*db, key.clone())),
+            _ => None,
+        })
+        .collect();
     for (db, (strat, keys)) in pd.iter() {
         if db == "$admin" {
             continue;
@@ -354,7 +362,14 @@ fn execute(prog: Program) -> Outcome {
                 continue;
             }
             let written_during = dbi.map(|i| during_keys.iter().any(|(d, kk)| *d == i && kk == k)).unwrap_or(false);
-            let phase = if written_during { "written-during-sync" } else { "written-before-join" };
+            let written_away = dbi.map(|i| away_keys.iter().any(|(d, kk)| *d == i && kk == k)).unwrap_or(false);
+            let phase = if written_during {
+                "written-during-sync"
+            } else if written_away {
+                "written-while-away"
+            } else {
+                "written-before-departure"
+            };
             match (a, b) {
                 (None, None) => {}
                 (Some(a), None) => out.violations.push(Violation::new(
